@@ -1,7 +1,7 @@
 """Per-property texts for MANIFEST.json"""
 HIST_NOTE = ("Trusted: the shadow model / slab upstream in /verif (targets/hist_run.cpp, vf/slab.hpp), "
              "clang 14 ASan+UBSan, rapidcheck. Histories are bounded (<=200 ops quick, <=200 ops x more cases "
-             "thorough), sizes <=64 KiB, subjects are a catalogue of 67 allocator x block-source instantiations in "
+             "thorough), sizes <=64 KiB, subjects are a catalogue of 68 allocator x block-source instantiations in "
              "3 build configurations. Absence of a violation is not a proof.")
 
 
@@ -59,12 +59,16 @@ TEXT.update({
                       "compile-only instantiation probes of every adapter member.",
                 technique="stateful PBT over a composition catalogue; call-log oracle in instrumented leaves; compile probes"),
     "C16": hist("A valid generated prefix history followed by one covered invalid release executed in a forked "
-                "child (handler must see untouched capacity figures, or the child must abort); valid histories in "
-                "base/dbg must never trigger the invalid-pointer handler.",
+                "child (handler must see untouched capacity figures, or the child must abort): foreign / off-boundary / "
+                "block-header pointers, the addresses one node before and after every run of nodes (learned by "
+                "draining the bucket in a child, no layout knowledge), block edges, double frees by position, stale "
+                "markers (from the history or made stale in the child), out-of-order block returns; valid histories "
+                "in base/dbg must never trigger the invalid-pointer handler.",
                 "DESIGN.md 5/C16", "stateful PBT + fork-per-bad-call fault injection; handler-capture oracle"),
     "C17": dict(engine="hist+fence", ref="DESIGN.md 5/C17", note=HIST_NOTE,
                 level="Generated write sets into/around nodes of the four low-level allocators in fence 0/8/16 builds "
-                      "(every offset inside the configured fence, every value != fence pattern); fill patterns of "
+                      "(every offset inside the fence the allocator wrote - its extent, max_alignment or a page, is observed "
+                      "per allocation, at least debug_fence_size -, every value != fence pattern); fill patterns of "
                       "fresh and released memory checked on every allocation/release of the history target.",
                 technique="PBT over generated write sets; recording buffer-overflow handler + byte-pattern oracle"),
     "C19": dict(engine="pure", ref="DESIGN.md 5/C19",
@@ -90,7 +94,10 @@ TEXT.update({
                      "vector+array+string, iterator-range arrays) with element sizes/alignments 1..16.",
                 level="Joint objects created with generous, exact-fit and one-byte-short additional sizes at generated "
                       "address residues; member ranges, upstream shape, clean failure, single release, clone "
-                      "independence checked; clone/move/swap/reset histories on three joint_ptrs.",
+                      "independence checked; clone/move/swap/reset histories on three joint_ptrs; after construction "
+                      "raw joint_allocator allocations/releases in any order and container operations (growth, "
+                      "shrink_to_fit, swap with empty) with fit/refusal decided from the stack top, every live piece "
+                      "byte-compared around each call.",
                 technique="stateful PBT; layout validity predicate + upstream call-log oracle"),
     "C13": dict(engine="thr", ref="DESIGN.md 5/C13",
                 note="Trusted: the instrumented mutex and allocator shell in targets/thr.cpp. The deterministic oracle "
@@ -103,16 +110,20 @@ TEXT.update({
                 technique="PBT over member-call sequences with a lock-held invariant; multi-threaded stress"),
     "C14": dict(engine="thr", ref="DESIGN.md 5/C14",
                 note="Trusted: the actor/scheduler harness in targets/thr.cpp; schedules are generated at operation "
-                     "granularity (each step runs to completion on its thread), not inside the list operations.",
+                     "granularity and, through the guarded yield points in src/temporary_allocator.cpp, at the "
+                     "shared-memory steps of the stack list; no preemption inside other library code.",
                 level="Every case runs in a forked child: generated nestings of temporary_allocator scopes (address-replay "
                       "oracle) and generated schedules of 2-4 real threads (start / initializer / use / scope / exit as "
                       "scheduled steps) under a holding model (no two live threads on one stack, stacks reused), then a "
-                      "normal process exit whose leak reports are captured; modes 2 and 1.",
+                      "normal process exit whose leak reports are captured; modes 2 and 1. With the yield hook installed "
+                      "the schedule also chooses the interleaving inside create/adopt/clear/thread-exit of the stack list.",
                 technique="stateful PBT over thread schedules (harness-owned scheduler) + fork-per-case exit observation"),
     "C20": dict(engine="obj", ref="DESIGN.md 5/C20",
                 note="Trusted: the ledger element type and logging leaf in targets/obj.cpp.",
                 level="For each helper / joint_array constructor form and every length 0..16 the number of element "
-                      "creations is measured, then a constructor failure is injected at a generated index (first, last, "
+                      "creations is measured (allocate_unique / allocate_shared with converting, default, copy and move "
+                      "construction, for an element type whose constructors all may throw and for one with a noexcept "
+                      "default constructor), then a constructor failure is injected at a generated index (first, last, "
                       "any): ledger (each object destroyed exactly once), exception identity, memory returned with "
                       "matching shape, helper usable afterwards.",
                 technique="fault injection at generated constructor indices over a ledger-instrumented element type"),
